@@ -12,6 +12,9 @@ From Coq Require Import ZifyBool.
 Ltac Zify.zify_post_hook ::= Z.to_euclidean_division_equations.
 Set Default Timeout 60.
 
+(* Model/Imageraw.v is written for a 64-bit usize; the bridge is therefore stated for the usize64 instance *)
+Local Existing Instance usize64.
+
 (* ---- raw load ----------------------------------------------------------------------------------------------- *)
 Lemma get_byte_eq buf i : 0 <= i -> Imageraw.get_byte buf i = get buf i.
 Proof.
@@ -94,7 +97,7 @@ Definition to_ir (im : Framebuffer.image) : Imageraw.image_raw :=
 Lemma data_width_eq im : Imageraw.data_width (to_ir im) = Framebuffer.data_width im.
 Proof. reflexivity. Qed.
 
-Lemma usize_max_eq : Imageraw.usize_max = Rawdata.usize_max.
+Lemma usize_max_eq : Imageraw.usize_max = @Rawdata.usize_max usize64.
 Proof. reflexivity. Qed.
 
 Lemma image_pixel_eq im p :
@@ -110,7 +113,7 @@ Proof.
   set (n := px p + py p * Framebuffer.data_width im).
   assert (Hn : 0 <= n) by (unfold n; nia).
   unfold iter_nth, iter_new, iter_next, Imageraw.raw_nth, Imageraw.raw_next. cbn [it_data it_index].
-  unfold Imageraw.sat_add_usize, sat_add_usize, Imageraw.usize_max, usize_max.
+  unfold Imageraw.sat_add_usize, sat_add_usize, Imageraw.usize_max. cbn [usize_max usize64].
   rewrite raw_load_eq_load by (auto; lia).
   destruct (load _ _ _ _); reflexivity.
 Qed.
